@@ -28,6 +28,7 @@ type Features struct {
 	NoFloatIntoInt                                       bool // with MixedWrites: only Int values into Float metrics
 	TimeBuiltins                                         bool
 	IncAsValue                                           bool // m++ / m-- used as an Int operand (never with R)
+	CapNamedLikeMetric                                   bool // a capture group named like a declared metric
 	NoRecursiveDecorators                                bool // a decorator is not used inside its own decorated block
 	OnePatternPerCond                                    bool // at most one pattern (line pattern or match operator) per condition
 	NoMixedMetricReads                                   bool // no metric reads inside mixed Int/Float arithmetic or comparisons
@@ -46,7 +47,8 @@ func AllFeatures() Features {
 		Builtins: true, Arith: true, Bitwise: true, Shifts: true, Pow: true,
 		LogicalOps: true, PatternLogical: true, RuntimeErrors: true,
 		NumericCaprefs: true, RedundantParens: true, FloatKeys: true, MetricReads: true, StringConcat: true,
-		MaxStmts: 12, MaxDepth: 3, MaxExprDepth: 4,
+		CapNamedLikeMetric: true,
+		MaxStmts:           12, MaxDepth: 3, MaxExprDepth: 4,
 	}
 }
 
@@ -64,6 +66,7 @@ type G struct {
 	F          Features
 	P          *Program
 	nextCap    int
+	capNames   map[string]bool
 	nextPat    int
 	scope      []capRef
 	patsVis    int
@@ -243,6 +246,18 @@ func (g *G) genPattern(forLine bool) *Pattern {
 			if !g.chance("unnamed", 25) {
 				t.Name = fmt.Sprintf("c%d", g.nextCap)
 				g.nextCap++
+				if g.F.CapNamedLikeMetric && len(g.P.Metrics) > 0 && g.chance("caplikemetric", 12) {
+					// a capture group may carry the name of a metric: different kinds
+					// of names, and the group's name is only visible in its block
+					if n := pick(g, "capmetric", g.P.Metrics).Name; !g.capNames[n] {
+						if g.capNames == nil {
+							g.capNames = map[string]bool{}
+						}
+						g.capNames[n] = true
+						t.Name = n
+						g.class("capture-group-named-like-a-metric")
+					}
+				}
 			}
 		}
 		p.Toks = append(p.Toks, t)
